@@ -11,6 +11,11 @@ so buffer, printed output, current line and marks are observed after each step; 
 Register-history stream (gen_reg_case): histories of line-wise stores (y d rs) interleaved with `pu N` / `@N`
 from the numbered registers; there the registers 1..9 are revealed after every command as well (probe `R`:
 `$pu N|$a` + sentinel line, `%p`, `u`) and compared between binary, model and reference.
+Command-string stream (gen_str_case): registers that hold MULTI-LINE command lists taken from buffer lines (y / d / capital
+appends) -- `rs x` with its text block and the lone `.` inside the string, further commands after the `.` line, a/i/c and a
+last-line `rs` whose text comes from the script input, nested `@` -- run by `@` from every position of the current line and
+followed by commands with default / relative addresses.  The reference runs a register LINE BY LINE (RefEd.run_lines): the text
+block of an in-string `rs` is the lines up to the first lone `.` line, which is consumed, and the next line is the next command.
 """
 import json, os, re, copy, glob as _glob
 import vlib
@@ -82,7 +87,31 @@ def r_cmd(c):
             out += ['|'.join(r_cmd(x)[0] for x in ln) for ln in c['cmds']] + ['.']
         else:
             out += list(c['text']) + ['.']
+    if k == '@':
+        # the text blocks which a/i/c (and an `rs` on the last line) INSIDE the executed register read from the input
+        for t in c.get('inblocks') or []:
+            out += list(t) + ['.']
     return out
+
+
+def r_prog(prog, tab):
+    """a command list as the lines of a command STRING (register text).  prog = list of lines, a line = list of commands joined
+    by `|`; only the last command of a line may take text: `rs` carries its text block inside the string ('text' lines, then the
+    lone `.` unless 'term' is False), a/i/c carry none (they read the input).  tab (line text -> commands) is filled with the
+    meaning of every command line -- the inverse of this renderer, which is what the reference editor looks lines up in."""
+    lines = []
+    for ln in prog:
+        head = '|'.join(r_cmd(dict(x, text=[], cmds=None, inblocks=None))[0] for x in ln)
+        tab[head] = [dict((k, v) for k, v in x.items() if k not in ('text', 'term', 'sub')) for x in ln]
+        lines.append(head)
+        last = ln[-1]
+        if last['cmd'] == 'rs' and last.get('text') is not None:
+            if last.get('sub'):
+                r_prog(last['sub'], tab)        # the text lines are themselves command lines (run later by @)
+            lines += list(last['text'])
+            if last.get('term', True):
+                lines.append('.')
+    return lines
 
 
 def r_line(step):
@@ -164,6 +193,10 @@ class RefEd:
         self.wa = True
         self.dirty = False
         self.version = 0            # bumped by every splice (C15 caches the identity -> row map on it)
+        self.cmdtab = {}            # command line text -> the commands it stands for (r_prog: the inverse of the renderer)
+        self.pending = []           # text blocks that follow the running top-level @ in the script (read by a/i/c inside it)
+        self.supplier = None        # generator mode: makes up the text blocks as they are asked for (recorded in self.taken)
+        self.taken = []
 
     # -- addresses --------------------------------------------------------------------------
     def find(self, pat, start, step):
@@ -279,8 +312,66 @@ class RefEd:
         else:
             self.cmdregs[r] = list(cmds)
 
+    # -- a register run as a command string ------------------------------------------------------
+    def take_block(self):
+        """the text block of a command that reads it from the input while a register is being run"""
+        if self.supplier is not None:
+            t = self.supplier()
+            self.taken.append(t)
+            return list(t)
+        if not self.pending:
+            raise KeyError('a command inside the register reads a text block from the input, none follows the @ line')
+        return list(self.pending.pop(0))
+
+    def run_lines(self, lines):
+        """register execute, line by line: every line is a command line (commands joined by `|`).  An `rs` takes the lines that
+        follow it in the string as its text block, up to the first line that is a lone `.` -- that line is consumed and the line
+        after it is the next command (nothing is printed, the current line does not move); when no line follows the `rs` the block
+        is read from the input like a typed one.  a/i/c always read the input.  Every command of the string is executed,
+        whether an earlier one was rejected or not."""
+        i = 0
+        while i < len(lines):
+            if lines[i] not in self.cmdtab:
+                raise KeyError('register line %r is not a generated command line' % lines[i])
+            cmds = self.cmdtab[lines[i]]
+            i += 1
+            for j, x in enumerate(cmds):
+                if x['cmd'] == 'rs':
+                    if j + 1 != len(cmds):
+                        raise KeyError('rs followed by | inside a string')
+                    if i < len(lines):
+                        # the first line after `rs` is text whatever it is (so an in-string block cannot be empty) and a block
+                        # the string does not terminate gains an empty line: the editor's way, on which the property is silent
+                        dots = [q for q in range(i + 1, len(lines)) if lines[q] == '.']
+                        if lines[i] == '.' or not dots:
+                            if not self.lenient:
+                                raise KeyError('in-string text block of rs that is empty or not terminated by a lone .')
+                            e = dots[0] if dots else len(lines)
+                            text = lines[i:e] + ([] if dots else [''])
+                        else:
+                            e = dots[0]
+                            text = lines[i:e]
+                        i = e + 1
+                    else:
+                        text = self.take_block()
+                    self.run(dict(x, text=text))
+                elif x['cmd'] in ('a', 'i', 'c'):
+                    self.run(dict(x, text=self.take_block()))
+                else:
+                    self.run(x)
+
     def run(self, c):
         """one command; a rejected command changes nothing (but see resolve for `;`)"""
+        if c['cmd'] == '@' and c.get('inblocks') is not None:
+            self.pending = [list(t) for t in c['inblocks']]
+            ok = self.run1(c)
+            left, self.pending = self.pending, []
+            if left and self.supplier is None:
+                raise KeyError('text blocks after the @ line that no command of the register read')
+            return ok
+        return self.run1(c)
+
+    def run1(self, c):
         k = c['cmd']
         try:
             if k == 'ec':
@@ -358,9 +449,12 @@ class RefEd:
             elif k == '@':
                 self.cur = b
                 r = c.get('reg') or '"'
-                for ln in list(self.cmdregs[r]):     # the commands may replace the register they are read from
-                    for x in ln:
-                        self.run(x)
+                if r in self.cmdregs or not self.cmdtab:
+                    for ln in list(self.cmdregs[r]):     # the commands may replace the register they are read from
+                        for x in ln:
+                            self.run(x)
+                else:
+                    self.run_lines(list(self.regs[r]))   # a register filled from buffer lines / text blocks
             else:
                 raise KeyError('command ' + k)
             return True
@@ -657,6 +751,185 @@ def gen_reg_case(rng, quick):
     return case
 
 
+# -- the command-string stream: registers holding multi-line command lists with text blocks -------------
+# ex_txt() has a second way of finding a text block: an `rs` that is executed from a STRING (a register run by @) takes the
+# following lines of that string up to the lone `.` and execution continues with the line after it.  The register texts come
+# from buffer lines (the lone `.` cannot be typed into a text block): `b,ey a`, `b,ed a`, or `rs a` + capital appends.
+# Every case runs such a register by @ from a chosen current line (first / middle / last line, explicit and relative
+# addresses, addresses that must be rejected), the commands after the `.` line use default / relative addresses, and so do the
+# steps that follow the @.
+
+def rel_addr(rng):
+    return rng.choice([[], [], [], [({'base': ('.',), 'offs': []}, None)], [({'base': ('.',), 'offs': [1]}, None)],
+                       [({'base': None, 'offs': [-1]}, None)], [({'base': None, 'offs': [1]}, None)],
+                       [({'base': ('.',), 'offs': []}, ','), ({'base': None, 'offs': [1]}, None)],
+                       [({'base': ('$',), 'offs': []}, None)], [({'base': ('.',), 'offs': [-1]}, ','), ({'base': ('.',), 'offs': []}, None)]])
+
+
+def gen_rel(rng, ed):
+    """a command without text whose address is the current line or relative to it: it shows where the current line is"""
+    t = rng.below(20)
+    a = rel_addr(rng)
+    if t < 6:
+        return {'cmd': 'p', 'addr': a}
+    if t < 10:
+        return {'cmd': '=', 'addr': a}
+    if t < 13:
+        return {'cmd': 'd', 'addr': a, 'reg': rng.choice([None, None, 'c'])}
+    if t < 15:
+        return {'cmd': 'k', 'addr': a, 'mark': rng.choice(MARKS)}
+    if t < 17:
+        return {'cmd': 'y', 'addr': a, 'reg': rng.choice([None, 'c'])}
+    if t < 19:
+        return {'cmd': 'pu', 'addr': a, 'reg': rng.choice([None, 'b', 'b', 'c', '1', '2'])}
+    return keep_a([gen_simple(rng, ed, False)], rng.chance(1, 6))[0]
+
+
+def keep_a(step, skip=False):
+    """the stores of the general generators go to c / B instead of a / A (register a holds the command list)"""
+    for x in step:
+        if not skip and x.get('reg') in ('a', 'A') and x['cmd'] in ('d', 'y', 'rs'):
+            x['reg'] = {'a': 'c', 'A': 'B'}[x['reg']]
+        for ln in x.get('cmds') or []:
+            keep_a(ln, skip)
+    return step
+
+
+def gen_prog(rng, ed, uniq):
+    """the command list of a register: lines of `|`-joined commands; `rs` with its text block and the lone `.` inside the string,
+    followed (mostly) by further commands; a/i/c (text from the input); @ of a register an earlier `rs` of the list filled with
+    command lines; an `rs` on the last line (text from the input)"""
+    prog = []
+    runnable = []               # registers set by an earlier in-string rs whose text is a command list
+    nitems = rng.choice([1, 2, 2, 3, 3, 4, 5])
+    want_rs = not rng.chance(1, 8)
+    for it in range(nitems):
+        t = rng.below(20)
+        last = it + 1 == nitems
+        if (want_rs and it == (0 if nitems < 3 else rng.below(2))) or t < 6:
+            want_rs = False
+            reg = rng.choice(['b', 'b', 'c', None, 'B', 'b'])
+            x = {'cmd': 'rs', 'reg': reg}
+            if rng.chance(2, 5):
+                sub = [[gen_rel(rng, ed)] + ([gen_rel(rng, ed)] if rng.chance(1, 4) else []) for _ in range(rng.range(1, 2))]
+                x['sub'] = sub
+                x['text'] = r_prog(sub, {})
+                if reg in ('b', 'c'):
+                    runnable.append(reg)
+            else:
+                x['text'] = ['%s~%d' % (rng.choice(WORDS), uniq + 10 * it + j) for j in range(rng.choice([1, 1, 2, 3]))]
+                if reg in runnable:
+                    runnable.remove(reg)
+            if rng.chance(1, 8) and x['text'][-1] != '.':
+                x['text'] = x['text'] + [rng.choice(['.x', '..', 'a.', '. '])]      # lines that look like the terminator but are not
+            if last and rng.chance(1, 16):
+                x['term'] = False                   # not terminated inside the string (the reference leaves it open)
+            if rng.chance(1, 40):
+                x['text'] = ['.'] + x['text']       # the first line after rs is text even when it is a lone `.` (left open too)
+            prog.append(([gen_rel(rng, ed)] if rng.chance(1, 6) else []) + [x])
+        elif t < 8 and last:
+            prog.append([{'cmd': 'rs', 'reg': rng.choice(['b', 'c', None])}])          # no line follows: text from the input
+        elif t < 10:
+            prog.append([{'cmd': rng.choice('aic'), 'addr': rel_addr(rng)}])             # text from the input
+        elif t < 12 and runnable:
+            prog.append([{'cmd': '@', 'addr': rel_addr(rng), 'reg': rng.choice(runnable)}])
+        else:
+            prog.append([gen_rel(rng, ed)] + ([gen_rel(rng, ed)] if rng.chance(1, 4) else []))
+    return prog
+
+
+def gen_str_case(rng, quick):
+    npre = rng.choice([0, 0, 1, 2, 3])
+    npost = rng.choice([0, 1, 2, 3, 4, 5])
+    case = {'files': {'g': ['gg0'], 'h': ['hh']}, 'wa': True, 'steps': [], 'stream': 'cmdstring', 'cmdtab': {}}
+    if rng.chance(1, 3):
+        case['regprobe'] = True
+    probe = RefEd([], {})
+    prog = gen_prog(rng, probe, 100)
+    plines = r_prog(prog, case['cmdtab'])
+    pre = ['%s%d' % (rng.choice(WORDS), i) for i in range(npre)]
+    post = ['%s%d' % (rng.choice(WORDS), npre + i) for i in range(npost)]
+    mode = rng.below(20)
+    typed = mode >= 17 and '.' in plines[1:] and not plines[0] == '.'
+    flines = pre + (['.'] if typed else plines) + post
+    case['file'] = flines
+    ed = RefEd(flines, case['files'])
+    ed.lenient = True
+    ed.cmdtab = case['cmdtab']
+
+    def add(step):
+        case['steps'].append(step)
+        try:
+            run_ref_step(ed, step, len(case['steps']) - 1, case.get('regprobe', False))
+        except KeyError:
+            pass
+
+    def naddr2(lo, hi):
+        return [({'base': ('n', lo), 'offs': []}, ','), ({'base': ('n', hi), 'offs': []}, None)]
+    # 1. the command list gets into register a
+    if typed:
+        # typed `rs a` / `rs A` text blocks for the stretches between the lone `.` lines, each `.` appended from the buffer line
+        chunk, first = [], True
+        for ln in plines + [None]:
+            if ln == '.' or ln is None:
+                if chunk:
+                    add([{'cmd': 'rs', 'reg': 'a' if first else 'A', 'text': chunk}])
+                    chunk, first = [], False
+                if ln == '.':
+                    add([{'cmd': 'y', 'addr': n_addr(npre + 1), 'reg': 'A'}])
+            else:
+                chunk.append(ln)
+    elif mode < 12 or not (pre or post):
+        add([{'cmd': 'y', 'addr': naddr2(npre + 1, npre + len(plines)), 'reg': 'a'}])
+    else:
+        add([{'cmd': 'd', 'addr': naddr2(npre + 1, npre + len(plines)), 'reg': 'a'}])
+    if rng.chance(1, 5):
+        add(keep_a([gen_store(rng, ed, 500, True)] if rng.chance(1, 2) else gen_step(rng, ed)))
+    # 2. run it from chosen current lines, each time followed by commands that show / use the current line
+    for rnd in range(rng.choice([1, 1, 2, 2, 3])):
+        n = len(ed.lines)
+        t = rng.below(20)
+        if t < 6 and n:
+            v = rng.choice([1, 1, max(1, n - 1), n, rng.range(1, n), rng.range(1, n)])
+            add([{'cmd': 'p', 'addr': n_addr(v)}])
+            a = []
+        elif t < 13:
+            a = n_addr(rng.choice([1, 1, 2, max(1, n - 1), n, rng.range(1, max(1, n)), rng.range(1, max(1, n))]))
+        elif t < 15:
+            a = rel_addr(rng)
+        elif t < 16:
+            a = n_addr(rng.choice([0, n + 1]))          # must be rejected: nothing runs, no text block is read
+        else:
+            a = gen_addr(rng, ed)
+        front = [gen_rel(rng, ed)] if rng.chance(1, 6) else []
+        for reg in [rng.choice(['a'] * 12 + ['b', 'c', '1', '2']), 'a']:
+            # only a register every line of which the reference can run (plain text run as commands may do anything, e.g. quit)
+            st = {'cmd': '@', 'addr': a, 'reg': reg}
+            ed2 = copy.deepcopy(ed)
+            ed2.taken = []
+            ed2.supplier = lambda: ['%s+%d' % (rng.choice(WORDS), rng.below(100)) for _ in range(rng.choice([0, 1, 1, 2]))]
+            try:
+                for x in front:
+                    ed2.run(x)
+                ed2.run(dict(st, inblocks=[]))
+            except KeyError:
+                continue
+            st['inblocks'] = ed2.taken
+            add(front + [st])
+            break
+        for _ in range(rng.range(1, 3)):
+            t = rng.below(10)
+            if t < 6:
+                add([gen_rel(rng, ed)] + ([gen_rel(rng, ed)] if rng.chance(1, 4) else []))
+            elif t < 7:
+                add([{'cmd': rng.choice('aic'), 'addr': rel_addr(rng), 'text': gen_text(rng)}])
+            elif t < 9:
+                add([{'cmd': 'pu', 'addr': rng.choice([[], [({'base': ('$',), 'offs': []}, None)]]), 'reg': rng.choice(['b', 'b', 'c', None, '1'])}])
+            else:
+                add(keep_a(gen_step(rng, ed)))
+    return case
+
+
 def run_ref_step(ed, step, k, regprobe=False):
     for c in step:
         ed.run(c)
@@ -688,15 +961,16 @@ def oracle(case, obs):
     are unspecified by the property: the reference adopts what the implementation reports for them."""
     ed = RefEd(case['file'], case['files'])
     ed.wa = case.get('wa', True)
+    ed.cmdtab = case.get('cmdtab') or {}
     for k, step in enumerate(case['steps']):
-        if k >= len(obs):
-            return {'what': 'the editor printed the probes of only %d of %d steps' % (len(obs), len(case['steps'])), 'step': k}
-        o = obs[k]
         before = [l[1] for l in ed.lines]
         try:
             want_out = ref_regions(ed, [step])[0]
         except KeyError as ex:
             return {'what': 'oracle undefined: %s' % ex, 'step': k, 'undefined': True}
+        if k >= len(obs):
+            return {'what': 'the editor printed the probes of only %d of %d steps' % (len(obs), len(case['steps'])), 'step': k}
+        o = obs[k]
         if o['out'] != want_out:
             return {'what': 'printed output of step %d differs from the reference' % k, 'step': k, 'expected': want_out, 'observed': o['out']}
         n = len(ed.lines)
@@ -737,6 +1011,24 @@ def oracle(case, obs):
     return None
 
 
+def ref_undefined(case):
+    """the reference alone: does the script run a register the reference gives no meaning to (a line that is not a generated
+    command line, a text block read from the input that the script does not supply)?  Then the editor may have swallowed the
+    probe lines as text, and nothing can be said about the output."""
+    if not case.get('cmdtab'):
+        return None
+    ed = RefEd(case['file'], case['files'])
+    ed.wa = case.get('wa', True)
+    ed.cmdtab = case['cmdtab']
+    ed.lenient = True
+    try:
+        for k, step in enumerate(case['steps']):
+            run_ref_step(ed, step, k, case.get('regprobe', False))
+    except KeyError as ex:
+        return {'what': 'oracle undefined: %s' % ex, 'step': k, 'undefined': True}
+    return None
+
+
 def classify(case, bad):
     """no finding of C06 is listed as known: the address-0 defects found by this check were repaired (fixed: 6c95ca8)"""
     return None
@@ -749,6 +1041,8 @@ def case_input(case):
          'script': build_script(case).decode('latin-1')}
     if case.get('regprobe'):
         d['regprobe'] = True
+    if case.get('cmdtab'):
+        d['cmdtab'] = case['cmdtab']
     return d
 
 
@@ -778,6 +1072,9 @@ def check_case(vi, case, mans):
         return 'crash', {'what': 'the editor crashed or hung (rc=%s, timed_out=%s)' % (r.rc, r.timed_out), 'stderr': r.err[-600:].decode('latin-1')}
     obs = parse_impl(r.out)
     if obs is None:
+        u = ref_undefined(case)
+        if u is not None:
+            return 'undefined', u       # (only shrunk command-string cases get here: a register of plain text lines run as commands)
         return 'violation', {'what': 'the probe markers in the output are damaged', 'observed': r.out[-400:].decode('latin-1')}
     bad = oracle(case, obs)
     if bad is None:
@@ -834,7 +1131,7 @@ def fix_json(c):
         if a == '%' or a is None:
             return a
         return [({'base': (tuple(t['base']) if t['base'] is not None else None), 'offs': t['offs']}, sep) for t, sep in a]
-    for step in c['steps']:
+    for step in list(c['steps']) + list((c.get('cmdtab') or {}).values()):
         for x in step:
             if 'addr' in x:
                 x['addr'] = fa(x['addr'])
@@ -903,6 +1200,9 @@ def run(ctx):
         nreg = 450 if ctx.quick else 9000
         for i in range(nreg):
             cases.append(gen_reg_case(rng.fork('reg%d' % i), ctx.quick))
+        nstr = 600 if ctx.quick else 12000
+        for i in range(nstr):
+            cases.append(gen_str_case(rng.fork('str%d' % i), ctx.quick))
         ex = exhaustive_cases(2 if ctx.quick else 4)
         if ctx.quick:
             r2 = rng.fork('exh')
@@ -927,6 +1227,12 @@ def run(ctx):
         res.count('buffer lines %d' % len(case['file']))
         if case.get('regprobe'):
             res.count('register-history case (registers 1..9 revealed after every command)')
+        if case.get('stream') == 'cmdstring':
+            res.count('command-string case (register with a multi-line command list run by @)')
+            if any(ln[-1]['cmd'] == 'rs' for ln in case['cmdtab'].values()):
+                res.count('command-string case with an rs inside the string')
+            if any(x.get('inblocks') for st in case['steps'] for x in st):
+                res.count('command-string case where a command inside the register reads a text block from the input')
         for st in case['steps']:
             for x in st:
                 if x['cmd'] in ('pu', '@') and (x.get('reg') or '') in NUMREGS and x.get('reg'):
@@ -936,7 +1242,10 @@ def run(ctx):
         if kind == 'ok':
             continue
         if kind == 'undefined':
-            res.count('oracle undefined (unknown mark used)')
+            w = det.get('what', '')
+            res.count('oracle undefined (%s)' % ('unknown mark used' if 'unknown mark' in w else
+                                                 'in-string rs block empty or unterminated: the property is silent' if 'terminated' in w else
+                                                 'a register of plain text lines run as commands'))
             continue
         if kind == 'disagree':
             res.disagree(dict(det, input=case_input(case)))
